@@ -691,10 +691,10 @@ Proof.
   assert (Hp3 : pending (w_new w3) p) by (exact (gcond_stable _ _ _ Gw1 S3 p eq_refl)).
   (* the failure path, from a world related to w1 *)
   assert (Fail : forall wf o wr rr, FI wf -> EI wf -> built_le w1 wf -> stable w1 wf ->
-            op_raised o = true ->
             bind (try_to_remove_file p) (fun _ => bind (m_bd_error p) (fun _ => new_finish_building_file p o)) wf = (wr, rr) ->
+            op_raised o = true ->
             FI wr /\ built_le w1 wr /\ EI wr /\ stable_ex p w1 wr).
-  { intros wf o wr rr Ff Ef Lf Sf Hra E.
+  { intros wf o wr rr Ff Ef Lf Sf E Hra.
     destruct (fail_seq_G _ _ _ _ _ E Hra Ff Ef (Lf p Hb1) (gcond_stable _ _ _ Gw1 Sf p eq_refl)) as (A1 & A2 & A3 & A4).
     split; [exact A1|]. split; [eapply built_le_trans; eauto|]. split; [exact A3 | eapply stable_then_ex; eauto]. }
   destruct res as [v|e].
@@ -707,9 +707,9 @@ Proof.
         assert (L14 : built_le w1 w4) by (eapply built_le_trans; eauto).
         assert (S14 : stable w1 w4) by (eapply stable_trans; eauto).
         destruct cmp;
-          try (match type of H with (match ?Z with _ => _ end) = _ => destruct Z as [wr [u|e']] eqn:E5 end;
-               inversion H; subst; eapply Fail; eauto; fail).
-        all: unfold new_finish_building_file, modify in H; inversion H; subst w' r; clear H;
+          try (match type of H with (let (_, _) := ?Z in _) = _ => destruct Z as [wr [u|e']] eqn:E5 end;
+               inversion H; subst; exact (Fail _ _ _ _ Fw4 Ew4 L14 S14 E5 eq_refl)).
+        all: unfold new_finish_building_file, modify in H; injection H as Hw' Hr'; subst w' r;
              assert (Hfile : isfile (w_fs w4) p = true) by (eapply noneable_cmp_file; [exact E4 | discriminate]);
              match goal with |- FI (set_new (cache_with _ (files_set _ _ (Some ?o)) _ _ _) _) /\ _ =>
                destruct (finish_success_G p o w4 eq_refl Fw4 Ew4 (L14 p Hb1) Hfile) as (A1 & A2 & A3 & A4)
@@ -719,12 +719,140 @@ Proof.
         assert (Tw3 : tcond (Some p) w3) by (intros q Y; inversion Y; subst; exact Hb3).
         assert (Gw3 : gcond (Some p) w3) by (intros q Y; inversion Y; subst; exact Hp3).
         destruct (R34 Fw3 Ew3 Tw3 Gw3) as (Fw4 & L4 & Ew4 & S4).
-        match type of H with (match ?Z with _ => _ end) = _ => destruct Z as [wr [u|e']] eqn:E5 end;
-          inversion H; subst; eapply Fail; eauto; first [eapply built_le_trans; eauto | eapply stable_trans; eauto].
-    + match type of H with (match ?Z with _ => _ end) = _ => destruct Z as [wr [u|e']] eqn:E5 end;
-        inversion H; subst; eapply Fail; eauto.
-  - match type of H with (match ?Z with _ => _ end) = _ => destruct Z as [wr [u|e']] eqn:E5 end;
-      inversion H; subst; eapply Fail; eauto.
+        assert (L14 : built_le w1 w4) by (eapply built_le_trans; eauto).
+        assert (S14 : stable w1 w4) by (eapply stable_trans; eauto).
+        match type of H with (let (_, _) := ?Z in _) = _ => destruct Z as [wr [u|e']] eqn:E5 end;
+          inversion H; subst; exact (Fail _ _ _ _ Fw4 Ew4 L14 S14 E5 eq_refl).
+    + match type of H with (let (_, _) := ?Z in _) = _ => destruct Z as [wr [u|e']] eqn:E5 end;
+        inversion H; subst; exact (Fail _ _ _ _ Fw3 Ew3 L3 S3 E5 eq_refl).
+  - match type of H with (let (_, _) := ?Z in _) = _ => destruct Z as [wr [u|e']] eqn:E5 end;
+      inversion H; subst; exact (Fail _ _ _ _ Fw3 Ew3 L3 S3 E5 eq_refl).
+Qed.
+
+(* ================================================================== *)
+(* 7. build_file, subbuild, user code                                  *)
+(* ================================================================== *)
+
+Lemma m_build_file_G : forall p c f a kw fn, P p ->
+  (forall sa skw, pres (GP (Some p)) (fn p sa skw)) ->
+  forall t, pres (GP t) (m_build_file p c f a kw fn).
+Proof.
+  intros p c f a kw fn HP Hfn t w w' r H. rewrite m_build_file_unfold in H.
+  destruct (sanitize a) as [sa|]; [|inversion H; subst; apply GRel_refl].
+  destruct (sanitize kw) as [skw|]; [|inversion H; subst; apply GRel_refl].
+  destruct (bf_setup p c f sa skw w) as [w1 sr] eqn:Hs.
+  pose proof (bf_setup_G t p c f sa skw HP _ _ _ Hs) as R1. change (GR t w w1) in R1.
+  change (GR t w w').
+  destruct sr as [[[o|[e o]]|]|e]; try (cbn in H; inversion H; subst; exact R1).
+  pose proof (bf_setup_none _ _ _ _ _ _ _ Hs) as Hb.
+  pose proof (bf_setup_none_pending _ _ _ _ _ _ _ Hs) as Hp.
+  pose proof (bf_setup_fresh _ _ _ _ _ _ _ _ Hs) as Hfree.
+  intros Fw Ew Tw Gw. destruct (R1 Fw Ew Tw Gw) as (Fw1 & L1 & Ew1 & S1).
+  destruct (bf_tail_none_G _ _ _ _ _ _ _ _ _ Hfn H Fw1 Ew1 Hb Hp) as (Fw' & L2 & Ew' & S2).
+  split; [exact Fw'|]. split; [eapply built_le_trans; eauto|]. split; [exact Ew'|].
+  intros q Hq. assert (Nq : q <> p) by (intro E; subst q; congruence).
+  rewrite (S2 q Nq (stable_has _ _ _ S1 Hq)). apply S1. exact Hq.
+Qed.
+
+Ltac relG_facts t :=
+  repeat match goal with
+  | E : ?m ?w = (?w1, _) |- _ =>
+      lazymatch goal with
+      | _ : GRel fs0 old cf P X t w w1 |- _ => fail
+      | _ => let Y := fresh "RL" in
+             assert (Y : GRel fs0 old cf P X t w w1) by (refine ((_ : pres (GP t) m) w w1 _ E); solve [pres_auto])
+      end
+  end.
+Ltac relG_chain :=
+  repeat first [ eassumption
+               | apply GRel_refl
+               | apply GRel_set_log
+               | eapply GRel_trans; [eassumption|]
+               | eapply GRel_trans; [apply GRel_set_log|];
+                 first [ eassumption | eapply GRel_trans; [eassumption|] ] ].
+
+Lemma m_subbuild_G : forall f a kw fn t,
+  (forall sa skw, pres (GP t) (fn sa skw)) -> pres (GP t) (m_subbuild f a kw fn).
+Proof.
+  intros f a kw fn t Hfn w w' r H. unfold m_subbuild in H.
+  destruct (sanitize a) as [sa|]; [|inversion H; subst; apply GRel_refl].
+  destruct (sanitize kw) as [skw|]; [|inversion H; subst; apply GRel_refl].
+  cbv zeta in H.
+  assert (Hset : pres (GP t)
+    (bind (new_assert_no_subbuild (subbuild_key f sa skw)) (fun _ =>
+     bind (subbuild_cache_lookup (subbuild_key f sa skw) f) (fun cached =>
+     match cached with
+     | Some co =>
+         bind (apply_cached_subs_of co) (fun _ =>
+         bind (attempt (new_use_cached_operation (OSubbuild f sa skw (op_subs co) (op_ret co) false false))) (fun r =>
+         match r with
+         | inl _ => ret (Some (inl (OSubbuild f sa skw (op_subs co) (op_ret co) false false)))
+         | inr e => ret (Some (inr (e, OSubbuild f sa skw (op_subs co) (op_ret co) true true)))
+         end))
+     | None => bind (new_start_subbuild (subbuild_key f sa skw)) (fun _ => ret None)
+     end)))).
+  { apply pres_bind; [auto with pres|]. intros _.
+    apply (pres_bind_valG fs0 old cf P X t _ _ _ _
+           (fun cached => match cached with Some co => forall x, In x (op_targets co) -> TG x | None => True end));
+      [auto with pres | |].
+    { intros w0 w1 x ((_ & B & _) & _) E. destruct x as [co|]; [|exact I].
+      apply sublookup_never_raised in E. destruct E as (E & _). rewrite B in E.
+      intros y Hy. right. right. eapply subs_get_targets; eauto. }
+    intros cached Hc. destruct cached as [co|]; [|pres_auto].
+    pose proof (apply_cached_subs_of_G co Hc t).
+    assert (Hreg : pres (GP t) (new_use_cached_operation (OSubbuild f sa skw (op_subs co) (op_ret co) false false))).
+    { apply new_use_cached_operation_G. intros q Hq. cbn [op_targets] in Hq. apply Hc. apply subs_targets_incl. exact Hq. }
+    pres_auto. }
+  match type of H with (match ?Z with _ => _ end) = _ => destruct Z as [w1 res] eqn:Hs end.
+  change (GR t w w').
+  repeat dm H; inversion H; subst; relG_facts t; relG_chain.
+Qed.
+
+Lemma m_query_G : forall t q, pres (GP t) (m_query q).
+Proof. intros t q. apply G_view. apply m_query_view. Qed.
+
+Theorem run_G : forall pr, AllTargets P pr ->
+  forall target subs, pres (GP target) (run pr target subs).
+Proof.
+  intros pr Hat.
+  induction Hat as [v | e | s q k Hk IHk | c k Hk IHk | s p c f a kw fn k Hp Hfn IHfn Hk IHk
+                    | s f a kw fn k Hfn IHfn Hk IHk];
+    intros target subs w w' r H; cbn [run] in H; change (GR target w w').
+  - inversion H; subst. apply GRel_refl.
+  - inversion H; subst. apply GRel_refl.
+  - destruct s; [eapply IHk; eauto|].
+    destruct (m_query q w) as [w1 [r1 o]] eqn:E.
+    apply (m_query_G target) in E. apply IHk in H.
+    eapply GRel_trans; [exact E|]. eapply GRel_trans; [apply GRel_log_answer | exact H].
+  - destruct target as [p|]; [|eapply IHk; eauto].
+    destruct (write_file (w_fs w) p c None (N.succ (w_clock w)) (w_nextid w)) as [fs'|e] eqn:E.
+    + apply IHk in H. eapply GRel_trans; [|exact H].
+      apply GRel_of.
+      * intros [Hr HD] Ht. split; [|apply built_le_same; reflexivity]. split.
+        -- eapply write_target_T; [exact Hr | apply Ht; reflexivity | exact E].
+        -- apply (dkeep_D fs0 old cf P X w); [|exact HD]. split; [reflexivity|]. cbn [w_fs set_clock set_fs].
+           split; [eapply write_file_dirs_same; eauto | eapply write_file_wf; eauto].
+      * intros _ (Z1 & HZ & XB & XS & X6) Tw Gw.
+        pose proof (Tw p eq_refl) as Hb. pose proof (Gw p eq_refl) as Hpd.
+        apply write_file_frame in E. destruct E as (_ & G2).
+        split; [|apply stable_same; reflexivity].
+        unfold EInv, XBc, XSc, X6c. cbn [w_new w_bd w_fs w_backups set_clock set_fs].
+        split; [exact Z1|]. split; [exact HZ|]. split; [|split; [|exact X6]].
+        -- intros q o Ho Hq. assert (Nq : q <> p) by (intro Y; subst q; rewrite (get_none_of_pending _ _ Hpd) in Ho; discriminate Ho).
+           pose proof (XB q o Ho Hq) as Y. unfold isfile in *. rewrite (G2 q Nq). exact Y.
+        -- intros q o Ho Hq Hc g. assert (Nq : q <> p) by (intro Y; subst q; contradiction).
+           rewrite (G2 q Nq). exact (XS q o Ho Hq Hc g).
+    + inversion H; subst. apply GRel_refl.
+  - destruct s; [eapply IHk; eauto|].
+    match type of H with (let '(_, _) := ?Z in _) = _ => destruct Z as [w1 [r1 o]] eqn:E end.
+    apply (m_build_file_G p c f a kw _ Hp) with (t := target) in E.
+    + apply IHk in H. eapply GRel_trans; [exact E | exact H].
+    + intros sa skw. apply IHfn.
+  - destruct s; [eapply IHk; eauto|].
+    match type of H with (let '(_, _) := ?Z in _) = _ => destruct Z as [w1 [r1 o]] eqn:E end.
+    apply (m_subbuild_G f a kw _ target) in E.
+    + apply IHk in H. eapply GRel_trans; [exact E | exact H].
+    + intros sa skw. apply pres_None_G. apply IHfn.
 Qed.
 
 End RunG.
